@@ -91,6 +91,8 @@ var (
 	fSub       = flag.Bool("subprocess", false, "with -shrink: one process per candidate (needed for race reports)")
 	fBudget    = flag.Int("budget", 1500, "with -shrink: execution budget")
 	fSamples   = flag.Int("samples", 2, "rendered sample runs to keep")
+	fRefSrv    = flag.Bool("refserver", false, "serve reference answers on stdin/stdout (started by a C13 worker)")
+	fNoRef     = flag.Bool("noref", false, "compute references in-process")
 	fParams    = flag.String("params", "", "k=v,k=v extra parameters")
 	fPlanCap   = flag.Int("plancap", 1500, "fault enumeration: beyond this many fault plans per base, sample")
 	fEnumLimit = flag.Int("enumlimit", 0, "fault enumeration: execute only the first N plans per base (determinism re-runs)")
@@ -113,6 +115,14 @@ func main() {
 	go watchdog()
 
 	switch {
+	case *fRefSrv:
+		d, err := os.MkdirTemp(*fDir, "verifsim-ref-")
+		if err != nil {
+			trouble("%v", err)
+		}
+		props.ServeRef(os.Stdin, os.Stdout, d)
+		os.RemoveAll(d)
+		return
 	case *fReplay != "":
 		doReplay()
 	case *fShrink != "":
@@ -168,6 +178,13 @@ func env(thorough bool, keep bool) *props.Env {
 		trouble("scratch dir: %v", err)
 	}
 	e.Dir = d
+	if *fProp == "C13" && !*fNoRef {
+		if refClient == nil {
+			self, _ := os.Executable()
+			refClient = props.NewRefClient(self, dir)
+		}
+		e.Ref = refClient.Ask
+	}
 	if *fParams != "" {
 		for _, kv := range strings.Split(*fParams, ",") {
 			var k string
